@@ -1,16 +1,21 @@
 // C17 harness: drives the REAL CertificateBuildParams.Range / EstimatedSize / NumberOfBlocks,
 // baseFlow.limitCertSize (through the verif hook), MaxL2BlockNumberLimiter.AdaptCertificate and
-// BlockRange.Gap / CountBlocks / IsEmpty on generated inputs and prints one JSON object per case.
+// the real baseFlow.GetCertificateBuildParamsInternal (kind "flow": the cut as the flows observe it), BlockRange.Gap / CountBlocks /
+// IsEmpty on generated inputs and prints one JSON object per case.
 package main
 
 import (
+	"context"
 	"encoding/json"
 	"errors"
+	"fmt"
 	"math/big"
 	"sort"
 	"strings"
 	"time"
 
+	agglayertypes "github.com/agglayer/aggkit/agglayer/types"
+	aggsenderdb "github.com/agglayer/aggkit/aggsender/db"
 	"github.com/agglayer/aggkit/aggsender/flows"
 	aggsendertypes "github.com/agglayer/aggkit/aggsender/types"
 	"github.com/agglayer/aggkit/bridgesync"
@@ -37,7 +42,7 @@ type Params struct {
 }
 
 type In struct {
-	Kind    string    `json:"kind"` // "range" | "limit" | "adapt" | "gap"
+	Kind    string    `json:"kind"` // "range" | "limit" | "flow" | "adapt" | "gap"
 	C       *Params   `json:"c,omitempty"`
 	F       uint64    `json:"f"`       // range: fromBlock
 	T       uint64    `json:"t"`       // range: toBlock
@@ -225,6 +230,15 @@ func runCase(in In) (o Out) {
 		o.Sizes = prefixSizes(in.C)
 		r, err := flows.VerifLimitCertSize(uint(in.Max), nolog{}, c)
 		o.Res, o.Err = observe(r), errEnum(err)
+	case "flow":
+		// the same cut, observed where the flows use it: the real GetCertificateBuildParamsInternal of a real base flow whose
+		// storage and L2 bridge syncer are stubs that make it build exactly the certificate in.C (first block, retry count,
+		// last sent certificate, type, events) before it cuts
+		c := build(in.C)
+		o.InSize, o.InBlocks = uint64(c.EstimatedSize()), int64(c.NumberOfBlocks())
+		o.Sizes = prefixSizes(in.C)
+		r, err := runFlow(in, c)
+		o.Res, o.Err = observe(r), errEnum(err)
 	case "adapt":
 		c := build(in.C)
 		o.InSize, o.InBlocks = uint64(c.EstimatedSize()), int64(c.NumberOfBlocks())
@@ -239,6 +253,52 @@ func runCase(in In) (o Out) {
 		o.GapCount, o.GapEmpty = g.CountBlocks(), g.IsEmpty()
 	}
 	return o
+}
+
+// stubs behind the real base flow (only the methods GetCertificateBuildParamsInternal calls are implemented)
+type flowStorage struct {
+	aggsenderdb.AggSenderStorage
+	hdr *aggsendertypes.CertificateHeader
+}
+
+func (s flowStorage) GetLastSentCertificateHeader() (*aggsendertypes.CertificateHeader, error) {
+	return s.hdr, nil
+}
+
+type flowBridge struct {
+	aggsendertypes.BridgeQuerier
+	c *aggsendertypes.CertificateBuildParams
+}
+
+func (b flowBridge) GetLastProcessedBlock(context.Context) (uint64, error) { return b.c.ToBlock, nil }
+func (b flowBridge) GetBridgesAndClaims(_ context.Context, from, to uint64) ([]bridgesync.Bridge, []bridgesync.Claim, error) {
+	if from != b.c.FromBlock || to != b.c.ToBlock {
+		return nil, nil, fmt.Errorf("harness: asked for [%d,%d], scripted [%d,%d]", from, to, b.c.FromBlock, b.c.ToBlock)
+	}
+	return b.c.Bridges, b.c.Claims, nil
+}
+
+// flowable: the certificate can be the one GetCertificateBuildParamsInternal builds (first block >= 1 so that a previous
+// certificate / start block exists below it; a first certificate is never a retry)
+func flowable(p *Params) bool {
+	return p != nil && p.From >= 1 && (p.HasLast || p.Retry == 0) && p.Retry >= 0
+}
+
+func runFlow(in In, c *aggsendertypes.CertificateBuildParams) (*aggsendertypes.CertificateBuildParams, error) {
+	p := in.C
+	if !flowable(p) {
+		return nil, errors.New("harness: not a certificate the flow can build")
+	}
+	var hdr *aggsendertypes.CertificateHeader
+	switch {
+	case !p.HasLast:
+	case p.Retry == 0:
+		hdr = &aggsendertypes.CertificateHeader{Height: 3, FromBlock: p.From - 1, ToBlock: p.From - 1, Status: agglayertypes.Settled}
+	default:
+		hdr = &aggsendertypes.CertificateHeader{Height: 3, FromBlock: p.From, ToBlock: p.To, Status: agglayertypes.InError, RetryCount: p.Retry - 1}
+	}
+	f := flows.NewBaseFlow(nolog{}, flowBridge{c: c}, flowStorage{hdr: hdr}, nil, nil, flows.NewBaseFlowConfig(uint(in.Max), p.From-1, false))
+	return f.GetCertificateBuildParamsInternal(context.Background(), aggsendertypes.CertificateType(p.Type))
 }
 
 // ---------------------------------------------------------------------------------------------
@@ -451,6 +511,11 @@ func casesOfLayout(rng *hlib.Rng, p *Params, heavy bool) []In {
 	}
 	for _, m := range uniq(limits) {
 		ins = append(ins, In{Kind: "limit", C: clone(p), Max: m})
+	}
+	if flowable(p) {
+		for _, m := range uniq(limits) {
+			ins = append(ins, In{Kind: "flow", C: clone(p), Max: m})
+		}
 	}
 	// AdaptCertificate: last-block limits below / inside / above the range, 0 (= disabled)
 	for _, m := range blocks {
